@@ -288,8 +288,9 @@ class AppNamespace(object):
 
         self.open_mailbox(mailbox_id, side, when) # may raise CrowdedError
         rows = db.execute("SELECT * FROM `nameplate_sides`"
-                          " WHERE `nameplates_id`=?", (npid,)).fetchall()
-        if len(rows) > 2:
+                          " WHERE `nameplates_id`=? ORDER BY `rowid`",
+                          (npid,)).fetchall()
+        if side not in [r["side"] for r in rows[:2]]:
             # this line will probably never get hit: any crowding is noticed
             # on mailbox_sides first, inside open_mailbox()
             raise CrowdedError("too many sides have claimed this nameplate")
@@ -398,9 +399,12 @@ class AppNamespace(object):
         mailbox.open(side, when)
         db.commit()
         rows = db.execute("SELECT * FROM `mailbox_sides`"
-                          " WHERE `mailbox_id`=?",
+                          " WHERE `mailbox_id`=? ORDER BY `rowid`",
                           (mailbox_id,)).fetchall()
-        if len(rows) > 2:
+        # only the first two sides to arrive may use the mailbox. The row of
+        # a later (refused) side stays, so the mailbox is summarized as
+        # "crowded", but it must not lock out the first two.
+        if side not in [r["side"] for r in rows[:2]]:
             raise CrowdedError("too many sides have opened this mailbox")
         return mailbox
 
